@@ -198,6 +198,8 @@ theorem yield_all (c : Cfg) (f : Nat) :
       simp only [parsePrefix] at h
       split at h
       · simp at h
+      split at h
+      · simp at h
       · rename_i k toks r hh
         have hy := prefixHead_yield _ _ _ hh
         obtain ⟨rfl, rfl⟩ := collateCheck_ok h
@@ -574,6 +576,8 @@ theorem shape_all (c : Cfg) (f : Nat) :
     · -- parsePrefix
       intro d ts e rest h
       simp only [parsePrefix] at h
+      split at h
+      · simp at h
       split at h
       · simp at h
       · obtain ⟨rfl, rfl⟩ := collateCheck_ok h
